@@ -4,12 +4,12 @@ open Main_common
 let run (line : string) : string =
   let ops = List.filter_map (fun ch ->
     match ch with
-    | 'A' -> Some (ORefresh CfgA) | 'B' -> Some (ORefresh CfgB) | 'E' -> Some ORefreshEarly | 'L' -> Some ORefreshLate | 'P' -> Some ORefreshLate | 'M' -> Some ORefreshLate
-    | 'D' -> Some ODestroy | 'g' -> Some OLog | 'w' -> Some OWrite | 'r' -> Some OWriteRoot | 'v' -> Some OWrite (* second handle: same binding rule *) | 't' -> Some ORegisterTag | 'h' -> Some OGetLogger
+    | 'A' -> Some (ORefresh CfgA) | 'B' -> Some (ORefresh CfgB) | 'W' -> Some (ORefresh CfgW) | 'E' -> Some ORefreshEarly | 'L' -> Some ORefreshLate | 'P' -> Some ORefreshLate | 'M' -> Some ORefreshLate
+    | 'D' -> Some ODestroy | 'g' -> Some (OLog false) | 'G' -> Some (OLog true) | 'w' -> Some OWrite | 'r' -> Some OWriteRoot | 'v' -> Some OWrite (* second handle: same binding rule *) | 't' -> Some ORegisterTag | 'h' -> Some OGetLogger
     | _ -> None) (List.init (String.length line) (String.get line)) in
   let (_, outs) = lrun l_start ops in
   "#" ^ String.concat " " (List.map (function
-    | RefreshOk -> "ok" | RefreshErr -> "err" | Done -> "ok" | ToConfig CfgA -> "A" | ToConfig CfgB -> "B"
+    | RefreshOk -> "ok" | RefreshErr -> "err" | Done -> "ok" | ToConfig CfgA -> "A" | ToConfig CfgB -> "B" | ToConfig CfgW -> "W" | Filtered -> "nowhere"
     | ToConsole -> "console" | Registered -> "registered" | Refused -> "refused") outs)
 
 let () = Hashtbl.replace families "c16" run
